@@ -370,6 +370,8 @@ def microdvd_any_number(c):
             A = args_by_name(fn, a, kw)
             return mkint(MF(zreal(A["micro"])))
         c.interp.contracts["pycaption.microdvd:MicroDVDWriter._microtoframes"] = frames
+        from pyvc.verify import require_callees
+        require_callees(c.interp.contracts)
         r = c.call(MicroDVDWriter._recreate_lang, c.new(MicroDVDWriter), X, compare=False)
         log = FrameLog.of(r)
         p.assume(pre(X.t, n) == X.t)
